@@ -5,6 +5,7 @@ package main
 import (
 	"fmt"
 	"go/types"
+	"os"
 	"sort"
 	"strings"
 	"time"
@@ -101,6 +102,14 @@ type Path struct {
 	pinPos int
 	ctl    []int
 
+	randEdges bool
+	randSmall bool
+	symIdx    map[string]int
+	symParent []int
+	symMemo   map[int][]int
+	pcSym     []int
+	pcLit     []string
+
 	initingShallow bool
 	crash          *crashRec
 	crashReported  bool
@@ -169,9 +178,7 @@ func (p *Path) assertPC(t *Term) {
 		}
 		return
 	}
-	p.pcs = append(p.pcs, t)
-	n := p.lit(t)
-	p.sol.Send("(assert " + n + ")\n")
+	p.addPC(t)
 }
 
 // feasible asks whether pc ∧ t is satisfiable. unknown counts as feasible.
@@ -179,7 +186,7 @@ func (p *Path) feasible(t *Term) bool {
 	if t.isConst() {
 		return t.val != 0
 	}
-	r := p.sol.Check(p.lit(t))
+	r := p.sol.Check(p.relevantLits(t)...)
 	switch r {
 	case "unsat":
 		return false
@@ -295,9 +302,11 @@ func (p *Path) concretize(t *Term, what string) uint64 {
 	var vals []uint64
 	limit := p.concLimit
 	name := p.lit(t)
+	rel := p.relevantLits(t)
+	rel = rel[:len(rel)-1]
 	p.sol.Send("(push 1)\n")
 	for len(vals) <= limit {
-		r := p.sol.Check()
+		r := p.sol.Check(rel...)
 		if r != "sat" {
 			if r != "unsat" {
 				p.sol.Send("(pop 1)\n")
@@ -363,19 +372,18 @@ func (p *Path) checkAssert(cond *Term) (string, map[string]uint64) {
 		if neg.val == 0 {
 			return "unsat", nil
 		}
-		// violated for every value on this path: get any model of pc
-		r := p.sol.Check()
-		if r == "sat" {
-			return "sat", p.model()
-		}
-		if r == "unsat" {
-			return "unsat", nil
+		// violated for every value on this path, provided the path condition is satisfiable at all
+		switch p.pcSat() {
+		case "unsat":
+			panic(abortPath{kind: "infeasible", msg: "path condition unsatisfiable (kept after an undecided feasibility query)"})
+		case "sat":
+			return "sat", p.fullModel(nil)
 		}
 		return "unknown", nil
 	}
-	r := p.sol.Check(p.lit(neg))
+	r := p.sol.Check(p.relevantLits(neg)...)
 	if r == "sat" {
-		return "sat", p.model()
+		return "sat", p.fullModel(neg)
 	}
 	if r == "unsat" {
 		return "unsat", nil
@@ -383,33 +391,205 @@ func (p *Path) checkAssert(cond *Term) (string, map[string]uint64) {
 	if r == "error" {
 		panic(abortPath{kind: "unsupported", msg: "solver error on assertion query"})
 	}
-	// portfolio on a standalone script
-	scr := p.script(neg)
+	// portfolio on a standalone script (relevant slice only)
+	scr := p.scriptFor(neg)
+	if d := os.Getenv("GOSYM_DUMP"); d != "" {
+		p.fresh++
+		os.WriteFile(fmt.Sprintf("%s/q-%d-%d.smt2", d, os.Getpid(), p.fresh), []byte(scr), 0644)
+	}
 	for _, k := range p.eng.portfolio {
 		rr := OneShot(k, scr, p.eng.assertTimeout)
 		if rr == "unsat" {
 			return "unsat", nil
 		}
 		if rr == "sat" {
-			// model from portfolio solver is not extracted; re-ask main solver with longer timeout is pointless: report w/o model
 			return "sat", map[string]uint64{}
 		}
 	}
 	return "unknown", nil
 }
 
-func (p *Path) model() map[string]uint64 {
-	names := make([]string, 0, len(p.inputs))
-	for _, iv := range p.inputs {
-		if p.pr.declV[iv.Name] {
-			names = append(names, "|"+iv.Name+"|")
+// pcSat checks every independent component of the path condition.
+func (p *Path) pcSat() string {
+	comps := map[int][]string{}
+	for i := range p.pcs {
+		r := p.find(p.pcSym[i])
+		comps[r] = append(comps[r], p.pcLit[i])
+	}
+	res := "sat"
+	for _, lits := range comps {
+		switch p.sol.Check(lits...) {
+		case "unsat":
+			return "unsat"
+		case "sat":
+		default:
+			res = "unknown"
 		}
 	}
-	mv := p.sol.GetValues(names)
+	return res
+}
+
+// ---- constraint independence: path conditions are kept as assumption literals, grouped by shared symbols ----
+
+func (p *Path) symOf(name string) int {
+	if i, ok := p.symIdx[name]; ok {
+		return i
+	}
+	i := len(p.symParent)
+	p.symIdx[name] = i
+	p.symParent = append(p.symParent, i)
+	return i
+}
+
+func (p *Path) find(i int) int {
+	for p.symParent[i] != i {
+		p.symParent[i] = p.symParent[p.symParent[i]]
+		i = p.symParent[i]
+	}
+	return i
+}
+
+// syms returns the symbols (variables and UF names) occurring in t.
+func (p *Path) syms(t *Term) []int {
+	if s, ok := p.symMemo[t.id]; ok {
+		return s
+	}
+	var out []int
+	seen := map[int]bool{}
+	visited := map[int]bool{}
+	var walk func(x *Term)
+	walk = func(x *Term) {
+		if visited[x.id] {
+			return
+		}
+		visited[x.id] = true
+		if s, ok := p.symMemo[x.id]; ok {
+			for _, v := range s {
+				if !seen[v] {
+					seen[v] = true
+					out = append(out, v)
+				}
+			}
+			return
+		}
+		switch x.op {
+		case OpVar:
+			v := p.symOf("v:" + x.name)
+			if !seen[v] {
+				seen[v] = true
+				out = append(out, v)
+			}
+		case OpApply:
+			v := p.symOf("f:" + x.name)
+			if !seen[v] {
+				seen[v] = true
+				out = append(out, v)
+			}
+		}
+		for _, a := range x.args {
+			walk(a)
+		}
+	}
+	walk(t)
+	p.symMemo[t.id] = out
+	return out
+}
+
+func (p *Path) addPC(t *Term) {
+	ss := p.syms(t)
+	if len(ss) == 0 {
+		return
+	}
+	r := p.find(ss[0])
+	for _, v := range ss[1:] {
+		r2 := p.find(v)
+		if r2 != r {
+			p.symParent[r2] = r
+		}
+	}
+	p.pcs = append(p.pcs, t)
+	p.pcSym = append(p.pcSym, ss[0])
+	p.pcLit = append(p.pcLit, p.lit(t))
+}
+
+// relevantLits returns the literals of the path conditions connected to q, followed by q's own literal.
+func (p *Path) relevantLits(q *Term) []string {
+	var lits []string
+	if q != nil {
+		roots := map[int]bool{}
+		for _, v := range p.syms(q) {
+			roots[p.find(v)] = true
+		}
+		for i := range p.pcs {
+			if roots[p.find(p.pcSym[i])] {
+				lits = append(lits, p.pcLit[i])
+			}
+		}
+		lits = append(lits, p.lit(q))
+	}
+	return lits
+}
+
+func (p *Path) scriptFor(q *Term) string {
+	var sb strings.Builder
+	pr := NewPrinter(p.tt)
+	roots := map[int]bool{}
+	for _, v := range p.syms(q) {
+		roots[p.find(v)] = true
+	}
+	for i, c := range p.pcs {
+		if roots[p.find(p.pcSym[i])] {
+			n := pr.Emit(&sb, c)
+			sb.WriteString("(assert " + n + ")\n")
+		}
+	}
+	n := pr.Emit(&sb, q)
+	sb.WriteString("(assert " + n + ")\n(check-sat)\n")
+	return sb.String()
+}
+
+// fullModel: values of all inputs: the slice of q first (solver is in sat state for it), then every other
+// independent component solved on its own.
+func (p *Path) fullModel(q *Term) map[string]uint64 {
 	m := map[string]uint64{}
-	for k, s := range mv {
-		if v, ok := parseBV(s); ok {
-			m[k] = v
+	done := map[int]bool{}
+	grab := func(roots map[int]bool) {
+		var names []string
+		for _, iv := range p.inputs {
+			if !p.pr.declV[iv.Name] {
+				continue
+			}
+			v := p.symOf("v:" + iv.Name)
+			if roots == nil || roots[p.find(v)] {
+				names = append(names, "|"+iv.Name+"|")
+			}
+		}
+		for k, s := range p.sol.GetValues(names) {
+			if v, ok := parseBV(s); ok {
+				m[k] = v
+			}
+		}
+	}
+	if q != nil {
+		roots := map[int]bool{}
+		for _, v := range p.syms(q) {
+			r := p.find(v)
+			roots[r] = true
+			done[r] = true
+		}
+		grab(roots)
+	}
+	// remaining components
+	comps := map[int][]string{}
+	for i := range p.pcs {
+		r := p.find(p.pcSym[i])
+		if !done[r] {
+			comps[r] = append(comps[r], p.pcLit[i])
+		}
+	}
+	for r, lits := range comps {
+		if p.sol.Check(lits...) == "sat" {
+			grab(map[int]bool{r: true})
 		}
 	}
 	return m
